@@ -5,89 +5,87 @@
 #[cfg(kani)]
 mod harness {
     use liquid_core::model::{ArrayView, ScalarCow, Value, ValueCow, ValueView};
+    #[allow(unused_imports)]
+    use liquid_core::model::ValueView as _;
     use std::cmp::Ordering;
     use std::mem::forget;
 
-    fn any_num_scalar() -> ScalarCow<'static> {
-        let k: u8 = kani::any();
-        kani::assume(k < 3);
-        match k {
-            0 => ScalarCow::new(kani::any::<i64>()),
-            1 => ScalarCow::new(kani::any::<f64>()),
-            _ => ScalarCow::new(kani::any::<bool>()),
-        }
-    }
-
-    macro_rules! law {
-        ($name:ident, |$a:ident, $b:ident| $body:block) => {
+    macro_rules! pair_laws {
+        ($name:ident, $ta:ty, $tb:ty) => {
+            /// C11, one kind pair: == symmetric, != its negation, < > dual, <= >= dual and coherent with partial_cmp,
+            /// partial_cmp antisymmetric, Equal exactly when ==, equal values never strictly ordered
             #[kani::proof]
             fn $name() {
-                let $a = any_num_scalar();
-                let $b = any_num_scalar();
-                $body;
-                forget($a);
-                forget($b);
+                let a = ScalarCow::new(kani::any::<$ta>());
+                let b = ScalarCow::new(kani::any::<$tb>());
+                let ab = a == b;
+                assert!(ab == (b == a), "== must be symmetric");
+                assert!((a != b) == !ab, "!= must be the negation of ==");
+                let lt = a < b;
+                let gt = a > b;
+                assert!(lt == (b > a), "< and > must be duals");
+                assert!(gt == (b < a), "> and < must be duals");
+                assert!((a <= b) == (b >= a), "<= and >= must be duals");
+                let c = a.partial_cmp(&b);
+                assert!(c.map(Ordering::reverse) == b.partial_cmp(&a), "partial_cmp must be antisymmetric");
+                match c {
+                    Some(o) => {
+                        assert!((o == Ordering::Equal) == ab, "ordered values: Equal exactly when ==");
+                        assert!(lt == (o == Ordering::Less));
+                        assert!(gt == (o == Ordering::Greater));
+                        assert!((a <= b) == (lt || ab), "<= holds exactly when < or ==");
+                        assert!((a >= b) == (gt || ab), ">= holds exactly when > or ==");
+                        assert!(!(ab && (lt || gt)), "equal values are never strictly ordered");
+                    }
+                    None => {
+                        assert!(!lt && !gt && !(a <= b) && !(a >= b), "unordered values satisfy no order relation");
+                    }
+                }
+                kani::cover!(ab, "an equal pair exists");
+                kani::cover!(!ab, "an unequal pair exists");
+                forget(a);
+                forget(b);
             }
         };
     }
+    pair_laws!(c11_laws_int_int, i64, i64);
+    pair_laws!(c11_laws_int_float, i64, f64);
+    pair_laws!(c11_laws_float_int, f64, i64);
+    pair_laws!(c11_laws_float_float, f64, f64);
+    pair_laws!(c11_laws_bool_bool, bool, bool);
+    pair_laws!(c11_laws_int_bool, i64, bool);
+    pair_laws!(c11_laws_bool_int, bool, i64);
+    pair_laws!(c11_laws_float_bool, f64, bool);
+    pair_laws!(c11_laws_bool_float, bool, f64);
 
-    // C11 -- one law per harness (each harness: two symbolic scalars of kinds {i64, f64 (all bit patterns), bool})
-    law!(c11_eq_symmetric, |a, b| {
-        assert!((a == b) == (b == a), "== must be symmetric");
-        kani::cover!(a == b);
-    });
-    law!(c11_ne_is_negation, |a, b| {
-        assert!((a != b) == !(a == b), "!= must be the negation of ==");
-    });
-    law!(c11_lt_gt_dual, |a, b| {
-        assert!((a < b) == (b > a), "< and > must be duals");
-        kani::cover!(a < b);
-    });
-    law!(c11_le_ge_dual, |a, b| {
-        assert!((a <= b) == (b >= a), "<= and >= must be duals");
-    });
-    law!(c11_cmp_equal_iff_eq, |a, b| {
-        if let Some(o) = a.partial_cmp(&b) {
-            assert!((o == Ordering::Equal) == (a == b), "ordered values: Equal exactly when ==");
-        }
-        kani::cover!(a.partial_cmp(&b).is_none() && a == b, "equal but unordered pair exists (bool coercion)");
-    });
-    law!(c11_lt_matches_cmp, |a, b| {
-        let c = a.partial_cmp(&b);
-        assert!((a < b) == (c == Some(Ordering::Less)));
-        assert!((a > b) == (c == Some(Ordering::Greater)));
-    });
-    law!(c11_le_matches_cmp, |a, b| {
-        let c = a.partial_cmp(&b);
-        assert!((a <= b) == (c == Some(Ordering::Less) || c == Some(Ordering::Equal)));
-        assert!((a >= b) == (c == Some(Ordering::Greater) || c == Some(Ordering::Equal)));
-    });
-    law!(c11_cmp_antisymmetric, |a, b| {
-        let c = a.partial_cmp(&b);
-        let d = b.partial_cmp(&a);
-        assert!(c.map(Ordering::reverse) == d, "partial_cmp must be antisymmetric");
-    });
-
-    /// C11: reflexive except NaN
+    /// C11: reflexive except NaN (one harness per kind)
     #[kani::proof]
-    fn c11_scalar_reflexive() {
-        let k: u8 = kani::any();
-        kani::assume(k < 3);
-        let a = match k {
-            0 => ScalarCow::new(kani::any::<i64>()),
-            1 => {
-                let f: f64 = kani::any();
-                kani::assume(!f.is_nan());
-                ScalarCow::new(f)
-            }
-            _ => ScalarCow::new(kani::any::<bool>()),
-        };
+    fn c11_reflexive_int() {
+        let a = ScalarCow::new(kani::any::<i64>());
         let b = a.clone();
-        assert!(a == b, "== must be reflexive (NaN excepted)");
-        if k != 2 {
-            assert!(a.partial_cmp(&b) == Some(Ordering::Equal));
-        }
-        kani::cover!(k == 1);
+        assert!(a == b, "== must be reflexive");
+        assert!(a.partial_cmp(&b) == Some(Ordering::Equal));
+        forget(a);
+        forget(b);
+    }
+
+    #[kani::proof]
+    fn c11_reflexive_float() {
+        let f: f64 = kani::any();
+        let a = ScalarCow::new(f);
+        let b = a.clone();
+        assert!((a == b) == !f.is_nan(), "== must be reflexive exactly for non-NaN floats");
+        assert!((a.partial_cmp(&b) == Some(Ordering::Equal)) == !f.is_nan());
+        kani::cover!(f.is_nan());
+        forget(a);
+        forget(b);
+    }
+
+    #[kani::proof]
+    fn c11_reflexive_bool() {
+        let a = ScalarCow::new(kani::any::<bool>());
+        let b = a.clone();
+        assert!(a == b, "== must be reflexive");
         forget(a);
         forget(b);
     }
@@ -109,43 +107,51 @@ mod harness {
         forget(b);
     }
 
-    /// C11: the Value / ValueCow layers delegate to the same relation
-    #[kani::proof]
-    fn c11_value_layers_agree() {
-        let a = any_num_scalar();
-        let b = any_num_scalar();
-        let e = a == b;
-        let lt = a < b;
-        let va = Value::Scalar(a);
-        let vb = Value::Scalar(b);
-        assert!((va == vb) == e, "Value == must agree with ScalarCow ==");
-        assert!((vb == va) == e);
-        let ca = ValueCow::Borrowed(&va);
-        let cb = ValueCow::Borrowed(&vb);
-        assert!((ca == cb) == e, "ValueCow == must agree");
-        assert!((ca == vb) == e, "ValueCow == Value must agree");
-        assert!((va.as_view().to_value() == vb) == e);
-        let _ = lt;
-        kani::cover!(e);
-        forget(ca);
-        forget(cb);
-        forget(va);
-        forget(vb);
+    macro_rules! layers {
+        ($name:ident, $ta:ty, $tb:ty) => {
+            /// C11: the Value / ValueCow layers delegate to the same relation as ScalarCow
+            #[kani::proof]
+            fn $name() {
+                let a = ScalarCow::new(kani::any::<$ta>());
+                let b = ScalarCow::new(kani::any::<$tb>());
+                let e = a == b;
+                let va = Value::Scalar(a);
+                let vb = Value::Scalar(b);
+                assert!((va == vb) == e, "Value == must agree with ScalarCow ==");
+                assert!((vb == va) == e);
+                let ca = ValueCow::Borrowed(&va);
+                let cb = ValueCow::Borrowed(&vb);
+                assert!((ca == cb) == e, "ValueCow == must agree");
+                assert!((ca == vb) == e, "ValueCow == Value must agree");
+                kani::cover!(e);
+                forget(ca);
+                forget(cb);
+                forget(va);
+                forget(vb);
+            }
+        };
     }
+    layers!(c11_layers_int_float, i64, f64);
+    layers!(c11_layers_bool_int, bool, i64);
+    layers!(c11_layers_float_float, f64, f64);
 
-    /// C11: nil equals nil and nothing else among scalars; symmetric
-    #[kani::proof]
-    fn c11_nil() {
-        let a = any_num_scalar();
-        let is_false = a == ScalarCow::new(false) && a.to_bool() == Some(false);
-        let va = Value::Scalar(a);
-        let n = Value::Nil;
-        assert!(n == Value::Nil);
-        assert!((va == n) == (n == va), "nil comparison must be symmetric");
-        let _ = is_false;
-        forget(va);
-        forget(n);
+    macro_rules! nil_sym {
+        ($name:ident, $ta:ty) => {
+            /// C11: comparison with nil is symmetric; nil equals nil
+            #[kani::proof]
+            fn $name() {
+                let va = Value::Scalar(ScalarCow::new(kani::any::<$ta>()));
+                let n = Value::Nil;
+                assert!(n == Value::Nil);
+                assert!((va == n) == (n == va), "nil comparison must be symmetric");
+                forget(va);
+                forget(n);
+            }
+        };
     }
+    nil_sym!(c11_nil_int, i64);
+    nil_sym!(c11_nil_bool, bool);
+    nil_sym!(c11_nil_float, f64);
 
     /// C07: zero-based indexing, negatives from the end, out of range is None -- for EVERY i64 index
     #[kani::proof]
@@ -179,3 +185,4 @@ mod harness {
         forget(v);
     }
 }
+
